@@ -1,0 +1,12 @@
+//go:build verif
+
+package updates
+
+// Exports of the difference primitives for external verification harnesses
+// (build tag verif only).
+
+func VerifDifference(a, b interface{}) (interface{}, bool) { return difference(a, b) }
+
+func VerifApplyDifference(v, d interface{}) (interface{}, bool) { return applyDifference(v, d) }
+
+func VerifMergeDifference(o, a, b interface{}) (interface{}, bool) { return mergeDifference(o, a, b) }
